@@ -93,7 +93,7 @@ def predicted (entry wher : String) : Option String :=
   let failing (r : OpRow) : Bool := isActorOp r && !(opOf r).passable
   let describe (r : OpRow) : String :=
     s!"row ({r.body}, {r.fn}, {r.kind}, {r.chan}): no cancellation alternative, no guaranteed partner"
-  if wf == "tracing.tracer.Send" then
+  if wf == "tracing.tracer.Send" || wf == "tracing.tracer.SubscribeChannel" then
     if failingSenderBody b && holdsHandle b then
       some s!"row {b}: its sender handle comes from another tracer than the one it sends on ({otherTracer})"
     else if failingSenderBody b then some s!"row {b}: sends traces, not a registered sender"
@@ -160,7 +160,8 @@ def check (params : List String) (lines : List String) : CaseResult := Id.run do
         r := { r with infos := s!"drained only after the 2 s deadline (nothing was parked; loaded machine) {ctx}" :: r.infos }
       -- leftovers: causes and consequences
       let pairs := (leaked.map (fun l => splitAt1 l "@")).eraseDups
-      let atSend (p : String × String) : Bool := fnOfWhere p.2 == "tracing.tracer.Send"
+      let atSend (p : String × String) : Bool :=
+        fnOfWhere p.2 == "tracing.tracer.Send" || fnOfWhere p.2 == "tracing.tracer.SubscribeChannel"
       -- a broadcaster parked in `subscriber <- trace` is a cause, not a consequence
       let stuckBroadcaster := pairs.filter (fun p => p.1 == "tracing.tracer.run" && stateOfWhere p.2 == "chan_send")
       let isMach (p : String × String) : Bool := machinery.contains p.1 && !stuckBroadcaster.contains p
